@@ -46,3 +46,34 @@ pub enum StrEdges {
     #[regex("\x7F[\x00-\x1F]")]
     Ctl,
 }
+
+// Self loops over "every byte except one" and two-edge states whose range touches 0x00 / 0xFF with a hole
+// (the comparison-chain and fast-loop renderings must keep the excepted byte).
+#[derive(Logos, Debug, PartialEq)]
+#[logos(utf8 = false)]
+pub enum ExceptLoops {
+    #[regex(b"#[^\n]*", allow_greedy = true)]
+    Comment,
+    #[regex(br#""[^"]*""#)]
+    Str,
+    #[regex(b"[a-z]+")]
+    Ident,
+    #[regex(b"'[\x00-\x7F&&[^']]'")]
+    Char,
+    #[regex(b"<[\x80-\xFF&&[^\xC0]]>")]
+    High,
+}
+
+#[derive(Logos, Debug, PartialEq)]
+pub enum ExceptLoopsStr {
+    #[regex("//[^\n]*", allow_greedy = true)]
+    Comment,
+    #[regex(r#""[^"]*""#)]
+    Str,
+    #[regex("[a-km-z]+")]
+    NoL,
+    #[regex("[0-46-9]+")]
+    NoFive,
+    #[regex("'[\x00-\x7F&&[^']]'")]
+    Char,
+}
